@@ -307,6 +307,39 @@ def gen_table(rng):
     return case
 
 
+def fanout_table(rng):
+    """deeper levels branch more than the unigram level (max_direct_descendants is decided below
+    level 1): one suffix chain, every token as its oldest-token extension"""
+    V = rng.choice([2, 3, 4])
+    N = rng.choice([3, 3, 4])
+    sos = rng.choice([0, -1, V])
+    toks = toks_of(V, sos)
+    dicts = [[] for _ in range(N)]
+    for _ in range(rng.choice([1, 1, 2])):
+        suffix = [rng.choice(toks) for _ in range(N - 1)]
+        lvl = rng.choice([N, N, N - 1]) if N > 3 else N
+        suf = suffix[N - lvl:]
+        for z in toks:
+            if rng.random() < 0.85:
+                k = [z] + suf
+                if k not in [e[0] for e in dicts[lvl - 1]]:
+                    dicts[lvl - 1].append([k, -rng.randint(0, 40), 0 if lvl == N else -rng.randint(0, 9)])
+    if not dicts[N - 1]:
+        dicts[N - 1].append([[rng.choice(toks) for _ in range(N)], -3, 0])
+    for t in range(V):
+        if rng.random() < 0.7:
+            dicts[0].append([[t], -rng.randint(0, 40), -rng.randint(0, 9)])
+    case = dict(kind="lm", V=V, sos=sos, dicts=dicts, opt=0)
+    qs = gen_queries(rng, case, nq=2)
+    # histories that end in the chain
+    top = dicts[N - 1]
+    cols = [e[0][:-1] for e in top[:3]] + [e[0][1:] for e in top[:2]]
+    for c in cols:
+        qs.append(dict(hist=[[x] for x in c], B=1, idx=len(c)))
+    case["queries"] = qs
+    return case
+
+
 def exhaustive_tables(tier):
     """V=2, order 2, start symbol in (0) and out (2) of the vocabulary: EVERY presence pattern of
     unigrams and bigrams (values a fixed function of the key, -inf for a few), queried on all
@@ -764,9 +797,10 @@ def arpa_term(case, out):
 # the very large table (offsets beyond int16): implementation vs the Python reference only
 # ----------------------------------------------------------------------------------------
 
-def huge_table_check(chk, rng):
+def huge_table_check(chk, seed, nbig):
+    import random
+    rng = random.Random(int(seed) * 1000003 + nbig)   # self-contained, so a replay rebuilds the same table
     V = 256
-    nbig = rng.choice([32765, 32766, 32767, 32800])
     ks = set()
     while len(ks) < nbig:
         ks.add((rng.randrange(V), rng.randrange(V)))
@@ -777,8 +811,8 @@ def huge_table_check(chk, rng):
     try:
         lm = build(case)
     except Exception as e:  # noqa: BLE001
-        chk.report({"case": dict(case, dicts="order-2 table, V=256, %d bigrams (seeded)" % nbig), "what":
-                    "constructor raised on a large valid table: " + exc_kind(e) + ": " + str(e)[:200], "nbig": nbig})
+        chk.report({"case": dict(kind="huge", nbig=nbig, V=V, sos=case["sos"], seed=seed), "what":
+                    "constructor raised on a large valid table: " + exc_kind(e) + ": " + str(e)[:200]})
         return
     b = bufs_of(lm)
     chk.count("huge:offsets_width=%d" % b["ow"])
@@ -802,12 +836,12 @@ def huge_table_check(chk, rng):
                             ctx, v, enc(full[i, bi, v].item()), py_katz(tab, ctx, v))
     except Exception as e:  # noqa: BLE001
         ok, why = False, "exception " + exc_kind(e) + ": " + str(e)[:200]
-    chk.extra["huge_table"] = dict(bigrams=nbig, max_offset=max(b["offsets"]), offsets_width=b["ow"], ids_width=b["iw"],
+    chk.extra.setdefault("huge_tables", []).append(dict(bigrams=nbig, max_offset=max(b["offsets"]), offsets_width=b["ow"], ids_width=b["iw"],
                                    agrees_with_python_reference=ok,
-                                   note="too large for vm_compute: checked against the harness's Python recursion only")
+                                   note="too large for vm_compute: checked against the harness's Python recursion only"))
     chk.note_case(dict(kind="huge", nbig=nbig, V=V, sos=case["sos"]), True, "huge")
     if not ok:
-        chk.report({"case": dict(kind="huge", nbig=nbig, V=V, sos=case["sos"], seed=chk.seed),
+        chk.report({"case": dict(kind="huge", nbig=nbig, V=V, sos=case["sos"], seed=seed),
                     "what": "large table (offsets beyond int16): " + why})
 
 
@@ -841,6 +875,8 @@ def gen_cases(chk):
     for nbig in (253, 254, 255, 256):
         cases.append((boundary_table(rng, nbig), "boundary"))
     cases.append((deep_table(rng), "boundary"))
+    for _ in range(150 if chk.tier == "thorough" else 24):
+        cases.append((fanout_table(rng), "fanout"))
     nrand = 2500 if chk.tier == "thorough" else 260
     for _ in range(nrand):
         cases.append((gen_table(rng), "random"))
@@ -946,7 +982,8 @@ def run(chk, cases=None):
     if pending and not concrete:
         chk.report(pending[0], no_failing_input=True)
     if not replaying:
-        huge_table_check(chk, chk.rng)
+        huge_table_check(chk, chk.seed, chk.rng.choice([32765, 32766, 32767]))  # int16 / int32 boundary of the offsets
+        huge_table_check(chk, chk.seed, 32800)                                  # well inside int32
 
 
 def replay(chk, path):
@@ -954,9 +991,6 @@ def replay(chk, path):
     case = rec["case"]
     case.pop("stream", None)
     if case.get("kind") == "huge":
-        import random
-        chk.rng = random.Random(case.get("seed", 0))
-        run(chk, [])
-        huge_table_check(chk, chk.rng)
+        huge_table_check(chk, case.get("seed", 0), case["nbig"])
         return
     run(chk, [(case, "replay")])
